@@ -5,6 +5,7 @@ import PsModel.IteratorC
 import PsModel.Generated.Facts
 import PsProps.C03
 import PsProps.C06
+import PsModel.Generated.Locks
 
 namespace Ps.Props
 open Ps Ps.Spec
@@ -142,5 +143,21 @@ theorem C11_type_switch :
       ("UINT16_PRIMES", "uint16_t"), ("INT32_PRIMES", "int32_t"), ("UINT32_PRIMES", "uint32_t"),
       ("INT64_PRIMES", "int64_t"), ("UINT64_PRIMES", "uint64_t")] ∧
     Gen.cTypeSwitchN = Gen.cTypeSwitch := by decide
+
+/-- **C11 (model sources)** regenerated on every run: digests of the (comment-, hook- and whitespace-normalised) bodies of the
+    functions that the hand-written model behind the theorems of this file mirrors.  An edit to one of
+    them — harmless or not — breaks this obligation; the check then searches for a failing input
+    with the correspondence streams (DESIGN.md section 2, step 5). -/
+theorem C11_model_sources :
+    Gen.modelSources.filter (fun e => e.1 ∈ ["iterator-c.skipto", "iterator-c.jump_to", "iterator-c.clear", "iterator-c.init", "iterator-c.free_iterator", "iterator-c.generate_next_primes", "iterator-c.generate_prev_primes", "iterator.h.next_prime", "iterator.h.prev_prime"]) =
+     [("iterator-c.skipto", "636c0a68cf6ec520fb4b"),
+      ("iterator-c.jump_to", "305e42bf5e9ea1870743"),
+      ("iterator-c.clear", "0bfc2a109ad41a52c480"),
+      ("iterator-c.init", "5cd6de5dae89be98f14a"),
+      ("iterator-c.free_iterator", "92349951134908b1f05a"),
+      ("iterator-c.generate_next_primes", "f2b77575cffe55b64d7e"),
+      ("iterator-c.generate_prev_primes", "686803fbb620259da67e"),
+      ("iterator.h.next_prime", "a158acb081322d74c935"),
+      ("iterator.h.prev_prime", "609801e019b49ddb63c3")] := by decide
 
 end Ps.Props
